@@ -220,6 +220,11 @@ def run(tier, seed):
         shapes = gen_shapes(rnd, n_directed)
         sm = [gen_scenario(rnd, sh) for sh in shapes]
         sm += [gen_d12(rnd, "flip" if i % 2 == 0 else "restore") for i in range(n_d12)]
+        # deploys whose last target turns healthy exactly at / 1 ns around the deploy deadline (C01's edge shapes): whichever way
+        # the tie goes, a target that serves afterwards must still be probed
+        sm += [c01.gen_scenario(random.Random(seed * 43 + i), {"mix": "edge", "n": 1 + i % 2, "existing": i % 3 == 0, "rollout": False, "arms": [],
+                                                                 "delta": [0, 0, -1, 1][i % 4], "again": False})
+               for i in range(8 if tier == "quick" else 64)]
         sm += [gen_cursor_sweep(k, pos, f) for k in ((2, 3) if tier == "quick" else (2, 3, 4, 5)) for pos in range(k + 1) for f in range(k)]
         scenarios = [s for s, _ in sm]
         metas = [m for _, m in sm]
@@ -241,7 +246,7 @@ def run(tier, seed):
             if harness_ok and ok:
                 terms = ["(%s, (%d)%%N, %s)" % (bounds_term(o, pts[j]), o["t_end"], m5.trace_term(o["events"])) for j, o in enumerate(outs)]
                 expr = ("fun x => match x with (bd, te, tr) => (reject_at tr, c09_fail_at tr, c09_rebuild_fail_at tr, c09_restore_at tr, "
-                        "c01_fail_at tr, c09_cadence bd (6000000000)%N te tr, c09_counts tr) end")
+                        "c01_fail_at tr, c09_cadence bd (6000000000)%N te tr, c09_counts tr, c09_unprobed_claim_at tr) end")
                 rows = m4x.coq_map(work, m5lb.IMPORTS, "", terms, expr, tag, shard=5)
                 src = next((o for o in outs if sum(1 for e in o["events"] if e["kind"] == "claim") >= 2 and
                             any(e["kind"] == "lb-new" and len(e["args"][1]) >= 2 for e in o["events"])), None) if self_test else None
@@ -254,7 +259,7 @@ def run(tier, seed):
             rejected, mon_fail, e2e, known, drains = [], [], [], [], []
             cnts = [0, 0, 0, 0]
             for j, r in enumerate(rows):
-                rej, mon, reb, rest, m1, cad, cnt = r
+                rej, mon, reb, rest, m1, cad, cnt, unp = r
                 for q in range(4):
                     cnts[q] += cnt[q]
                 if mon is not None:
@@ -266,6 +271,9 @@ def run(tier, seed):
                     mon_fail.append((j, "c09_rebuild_ok", reb[1]))
                 elif m1 is not None:
                     mon_fail.append((j, "c01_ok", m1[1]))
+                elif unp is not None:
+                    mon_fail.append((j, "c09_unprobed_claim (a request was sent to a target whose probe loop has been stopped while "
+                                        "its balancer is still in service)", unp[1]))
                 elif not cad and metas[j] is not None and metas[j]["strict"]:
                     mon_fail.append((j, "c09_cadence", -1))
                 if rej is not None:
